@@ -226,8 +226,9 @@ class TcpConnection():
         self._read()
 
         if self._recv_buffer:
-            self._recv_data_stream += copy.copy(self._recv_buffer)
-            self._recv_data_available.set()
+            with self.lock:
+                self._recv_data_stream += copy.copy(self._recv_buffer)
+                self._recv_data_available.set()
             self._recv_buffer = b""
 
         tcp_connection.debug(f"[Socket-{self.sock_id}] _recv_buffer has "\
